@@ -291,13 +291,15 @@ def make_scripts(ctx, info, names_tables):
 # ----------------------------------------------------------------------------------------------------
 # running
 
-def run_worker(script, build):
+def run_worker(script, build, deadline=None, timeout=120):
+    if deadline is not None and script.get("origin") == "random" and time.time() > deadline:
+        return None, "skipped: time budget of the quick tier used up (only random scripts are ever skipped)"
     env = {"PYTHONPATH": core.REPO, "VERIF_REPO": core.REPO, "PYTHONHASHSEED": "0", "PATH": os.environ.get("PATH", ""),
            "HOME": os.environ.get("HOME", "/root"), "TZ": "UTC"}
     arg = json.dumps({"env": script["env"], "events": script["events"]})
     try:
         p = subprocess.run([core.PY, WORKER, arg], env=env, cwd=build, stdout=subprocess.PIPE, stderr=subprocess.PIPE,
-                           text=True, timeout=120)
+                           text=True, timeout=timeout)
     except subprocess.TimeoutExpired:
         return None, "timeout"
     m = re.search(r"^C20OBS (.*)$", p.stdout, re.M)
@@ -374,16 +376,25 @@ def run(ctx: core.Ctx):
     ctx.log(f"{len(scripts)} scripts ({n_exh} bounded-exhaustive shapes), one fresh interpreter each")
     t0 = time.time()
     with ThreadPoolExecutor(max_workers=8) as ex:
-        futures = [ex.submit(run_worker, s, ctx.build) for s in scripts]
+        deadline = t0 + 55 if ctx.tier == "quick" else None
+        futures = [ex.submit(run_worker, s, ctx.build, deadline) for s in scripts]
         # proofs are checked while the interpreters run
         proved = False
         if t1_ok:
             proved = ctx.prove([gen_v, core.COQ + "/props/C20.v"], dep_theories=["C20/Activate.v", "C20/ActivateProof.v"])
         results = [f.result() for f in futures]
-    ctx.log(f"interpreters done in {time.time() - t0:.1f}s")
+    # a script that timed out on a loaded machine gets one more, unhurried, run
+    for i, (res, err) in enumerate(results):
+        if res is None and err == "timeout" and sum(1 for r in results[:i] if r[1] == "timeout") < 12:
+            results[i] = run_worker(scripts[i], ctx.build, None, timeout=600)
+    n_skipped = sum(1 for r in results if r[0] is None and str(r[1]).startswith("skipped"))
+    ctx.log(f"interpreters done in {time.time() - t0:.1f}s" + (f" ({n_skipped} random scripts skipped: time budget)" if n_skipped else ""))
+    ctx.coverage["random_scripts_skipped_for_time"] = n_skipped
     items, keep = [], []
     n_fail = 0
     for sc, (res, err) in zip(scripts, results):
+        if res is None and str(err).startswith("skipped"):
+            continue
         if res is None or len(res["obs"]) != len(sc["events"]):
             n_fail += 1
             if n_fail <= 3:
@@ -397,20 +408,32 @@ def run(ctx: core.Ctx):
     evaluate(ctx, keep, verdicts, proved, n_exh, len(scripts), info)
 
 
+def engines_in(sc):
+    return {ev[1] for ev in sc["events"] if ev[0] in ("act", "enter")}
+
+
 def evaluate(ctx, keep, verdicts, proved, n_exh, n_scripts, info):
     hist_len, hist_kind, hist_env, hist_diag, hist_origin = {}, {}, {}, {}, {}
-    n_steps = n_in_dom = n_nontriv = n_abstain = n_names = 0
+    n_steps = n_in_dom = n_nontriv = n_abstain = n_names = n_in_dom0 = n_multi = n_multi_dom0 = 0
     model_fail, deviations = [], {}
     seen = set()
     for (sc, res), v in zip(keep, verdicts):
         if v is None:
             continue
-        m = re.match(r"^([01])([01]):((?:[01u][01][A-Za-z])*)(!?)$", v)
+        m = re.match(r"^([01])([01])([01])([01]):((?:[01u][01][A-Za-z])*)(!?)$", v)
         if not m:
             ctx.broken("cases-format", f"unparsable verdict {v[:80]!r}")
             continue
-        in_dom, model_conf, body = m.group(1) == "1", m.group(2) == "1", m.group(3)
-        if m.group(4):
+        in_dom, model_conf, in_dom0, model_conf0, body = (m.group(1) == "1", m.group(2) == "1", m.group(3) == "1",
+                                                          m.group(4) == "1", m.group(5))
+        n_in_dom0 += in_dom0
+        if len(engines_in(sc)) >= 2:
+            n_multi += 1
+            n_multi_dom0 += in_dom0
+        if proved and in_dom0 and not model_conf0:
+            ctx.broken("theorem-vs-evaluation", "script in the no-mixture domain whose model run the Spec rejects: "
+                       + json.dumps([sc["env"], sc["events"]])[:300])
+        if m.group(6):
             ctx.broken("cases-format", "event and observation lists of different length")
             continue
         core_evs = [(ev, o) for ev, o in zip(sc["events"], res["obs"]) if ev[0] != "names"]
@@ -442,7 +465,8 @@ def evaluate(ctx, keep, verdicts, proved, n_exh, n_scripts, info):
                 if len(got) != len(ev[2]) or set(got) - {"1"}:
                     bad = [row[1] for row, ch in zip(ev[2], got) if ch != "1"]
                     deviations.setdefault("C20/documented-class-not-engine-object:" + ",".join(sorted(bad))[:80],
-                                          []).append((len(sc["events"]), sc, res, -1, "documented class is not sqlframe's object"))
+                                          []).append((len(sc["events"]), sc, res, -1 - sc["events"].index(ev),
+                                                      "documented class is not sqlframe's object"))
         first_mis = first_rej = None
         for i, st in enumerate(steps):
             if st[0] == "u":
@@ -473,15 +497,17 @@ def evaluate(ctx, keep, verdicts, proved, n_exh, n_scripts, info):
     for sig, lst in sorted(deviations.items()):
         lst.sort(key=lambda x: (x[0], len(x[1]["events"])))
         pos, sc, res, idx, what = lst[0]
-        cut = len(sc["events"]) if idx < 0 else idx + 1 + sum(1 for e in sc["events"][:idx + 1] if e[0] == "names")
-        # smallest witness: the script cut after the rejected step
+        # smallest witness: the script cut after the rejected step (idx < 0: a names check at position -1 - idx)
         core_i, cutpos = -1, len(sc["events"])
-        for j, ev in enumerate(sc["events"]):
-            if ev[0] != "names":
-                core_i += 1
-            if core_i == idx:
-                cutpos = j + 1
-                break
+        if idx < 0:
+            cutpos = -idx
+        else:
+            for j, ev in enumerate(sc["events"]):
+                if ev[0] != "names":
+                    core_i += 1
+                if core_i == idx:
+                    cutpos = j + 1
+                    break
         evs = sc["events"][:cutpos]
         ctx.deviation(sig, what, {
             "env": sc["env"], "events": evs, "script": [describe(e) for e in evs],
@@ -506,6 +532,8 @@ def evaluate(ctx, keep, verdicts, proved, n_exh, n_scripts, info):
                 "view of the 13 documented paths at the end, each in a fresh interpreter; non-trivial = >= 2 core events and >= 1 "
                 "probe; distinct by (environment, event list)",
         "bounded_exhaustive_shapes": n_exh, "scripts_generated": n_scripts, "in_theorem_domain": n_in_dom,
+        "in_no_mixture_theorem_domain": n_in_dom0, "scripts_with_two_engines": n_multi,
+        "two_engine_scripts_in_no_mixture_domain": n_multi_dom0,
         "model_abstained_steps": n_abstain, "names_checks": n_names,
         "histogram_core_events": hist_len, "histogram_event_kind": hist_kind, "histogram_environment": hist_env,
         "histogram_origin": hist_origin, "histogram_first_rejection": hist_diag,
